@@ -334,6 +334,9 @@ def later_stream(rep, drv, real, rng, quick, cases, baselines):
                 obs = norm_obs(real.run(files, disk=disk, later=True, watchdog=20))
             runs += 1
             hows = [adds[j][0] for j in which]
+            if not fresh and any(h.startswith("include-cycle") for h in hows):
+                import gc
+                gc.collect()          # (the open files of the nested readers, see real_include)
             for h in hows:
                 hist[h.split(":")[0]] = hist.get(h.split(":")[0], 0) + 1
             case = {"stream": "later", "how": hows, "reading_order": order, "names_on_disk": disk,
@@ -453,6 +456,10 @@ def real_include(ford, root, top, inc_dirs, files):
             items = list(rd.FortranReader(str(root / top), "!", ">", "*", "|", inc_dirs=[str(root / d) for d in inc_dirs]))
         return ["items"] + items
     except RecursionError:
+        # (every nested reader holds an open file, and the traceback holds the readers: collect now, a few
+        #  hundred descriptors per case would otherwise wait for the next collection)
+        import gc
+        gc.collect()
         return ["error", "recursion"]
     except FileNotFoundError as e:
         m = str(e)
